@@ -281,9 +281,13 @@ impl<'a> ProgGen<'a> {
             if self.cfg.bursts && self.bursts_left > 0 {
                 opts.push((1, 14));
             }
+            if self.cfg.tokens {
+                opts.push((1, 15));
+            }
             let w: Vec<u64> = opts.iter().map(|o| o.0).collect();
             let pick = opts[self.rng.weighted(&w)].1;
             let st = match pick {
+                15 => Stmt::MakeAndDrop(self.leaf()),
                 14 => {
                     self.bursts_left -= 1;
                     Stmt::Burst { n: self.rng.range(20, 90) as u8, tag: self.tag() }
